@@ -6,6 +6,7 @@
 
     PE_PE.Package_ID / PE_PE.Component_ID (R8000, R8003)   `Parent`
     EP_PKG, C_C (each one a PE_PE itself, R8001)           `Container`
+    EP_PKGREF (Referring_Package_ID, Referred_Package_ID), R1402   `PkgRef`  (`ClassDiagram.pkgrefs`)
     S_DT with its R17 subtype S_CDT / S_EDT / S_UDT        `DataType`  (S_SDT, S_IRDT, no subtype: `other`)
       S_ENUM in R56 ('precedes') order                       `DtKind.enum`
       S_UDT -> S_DT over R18                                 `DtKind.user`
@@ -40,6 +41,13 @@ structure Container where
   id : Nat
   name : String
   parent : Parent
+  deriving DecidableEq, Repr, Inhabited
+
+/-- one EP_PKGREF row (R1402): package `referring` REFERS TO package `referred`; for `is_contained_in` the elements of
+    `referred` are then also inside whatever `referring` is inside -/
+structure PkgRef where
+  referring : Nat
+  referred : Nat
   deriving DecidableEq, Repr, Inhabited
 
 inductive DtKind where
@@ -170,6 +178,9 @@ structure ClassDiagram where
   /-- relationships given row by row (`RelRows`): everything `rels` cannot express.  `extract` / `buildOutcome` do not
       look at them; `buildAll` (Rows.lean) is `mk_component` over `rels` and `rowRels` together. -/
   rowRels : List RowRel := []
+  /-- the EP_PKGREF rows (R1402), in row order.  `is_contained_in` follows them (from the referred package to every
+      package referring to it), `is_global` does not. -/
+  pkgrefs : List PkgRef := []
   deriving Repr, Inhabited
 
 def looseOf (d : ClassDiagram) (cls : Nat) : List Attr := (d.loose.filter (fun p => p.1 == cls)).map (·.2)
@@ -183,28 +194,61 @@ def findRel (d : ClassDiagram) (id : Nat) : Option Rel := d.rels.find? (fun r =>
 def findContainer (cs : List Container) (isComp : Bool) (id : Nat) : Option Container :=
   cs.find? (fun k => k.isComp == isComp && k.id == id)
 
-/-- `is_contained_in(pe_pe, root)` for a root that is a C_C: walk up the PE_PE containment.
-    The Python recursion is unbounded (a cyclic containment never returns); the model takes
-    fuel, `containedIn` supplies more than any acyclic containment needs.  EP_PKGREF (R1402)
-    package references are not modelled (absent from the domain). -/
-def containedFuel (cs : List Container) (root : Nat) : Nat → Parent → Bool
+/-- `is_contained_in(pe_pe, root)` for a root that is a C_C, on the `Parent` of the PE_PE (bridgepoint/ooaofooa.py):
+
+      ep_pkg = one(pe_pe).EP_PKG[8000]();  c_c = one(pe_pe).C_C[8003]()
+      if root in [ep_pkg, c_c]: return True                       -- only `c_c` can be the component `root`
+      elif is_contained_in(ep_pkg, root): return True             -- up: the PE_PE of the package
+      elif is_contained_in(c_c, root): return True                -- up: the PE_PE of the component
+      for ep_pkg in many(ep_pkg).EP_PKG[1402, 'is referenced by'](): -- every package REFERRING to `ep_pkg` …
+          if is_contained_in(ep_pkg, root): return True           -- … up: the PE_PE of the referring package
+      return False
+
+    `many(ep_pkg).EP_PKG[1402, 'is referenced by']` goes over the EP_PKGREF rows whose Referred_Package_ID is the package
+    and from each to the EP_PKG its Referring_Package_ID names (a row naming no package contributes nothing; without
+    the package itself — a Package_ID that names no EP_PKG row — nothing is navigated at all).  A Component_ID that names
+    no C_C row is no container.  The result is a disjunction, so the order of the checks only matters for termination:
+    the Python recursion is unbounded (a cyclic containment or a reference cycle never returns — RecursionError); the
+    model takes fuel, `containedIn` supplies more than any acyclic containment + reference graph needs
+    (`TreeOk`, `contained_iff` in Proofs/ExtractScope.lean). -/
+def containedFuel (cs : List Container) (rf : List PkgRef) (root : Nat) : Nat → Parent → Bool
   | 0, _ => false
   | _ + 1, .none => false
   | f + 1, .pkg p =>
     match findContainer cs false p with
-    | some k => containedFuel cs root f k.parent
+    | some k =>
+      containedFuel cs rf root f k.parent ||
+        rf.any (fun r => r.referred == p &&
+          match findContainer cs false r.referring with
+          | some kq => containedFuel cs rf root f kq.parent
+          | none => false)
     | none => false
   | f + 1, .comp c =>
     -- `one(pe_pe).C_C[8003]()`: a Component_ID that names no C_C row is no container at all
     match findContainer cs true c with
-    | some k => c == root || containedFuel cs root f k.parent
+    | some k => c == root || containedFuel cs rf root f k.parent
     | none => false
 
-def containedIn (cs : List Container) (root : Nat) (p : Parent) : Bool :=
-  containedFuel cs root (cs.length + 1) p
+def containedIn (cs : List Container) (rf : List PkgRef) (root : Nat) (p : Parent) : Bool :=
+  containedFuel cs rf root (cs.length + 1) p
+
+/-- the same walk without package references: what `containedFuel` was before EP_PKGREF rows entered the model.  Kept
+    for the conservative-extension lemma `containedFuel_no_pkgref` (Proofs/ExtractScope.lean). -/
+def containedFuelPlain (cs : List Container) (root : Nat) : Nat → Parent → Bool
+  | 0, _ => false
+  | _ + 1, .none => false
+  | f + 1, .pkg p =>
+    match findContainer cs false p with
+    | some k => containedFuelPlain cs root f k.parent
+    | none => false
+  | f + 1, .comp c =>
+    match findContainer cs true c with
+    | some k => c == root || containedFuelPlain cs root f k.parent
+    | none => false
 
 /-- `is_global(pe_pe)`: no component on the way up (`one(pe_pe).C_C[8003]()`: a Component_ID that names no
-    C_C row does not count).  Fuel stands for the Python recursion; under `TreeOk` (Proofs/ExtractScope.lean) it
+    C_C row does not count).  `is_global` does NOT follow package references: an element of a global package that a
+    package of a component refers to is global AND contained in that component.  Fuel stands for the Python recursion; under `TreeOk` (Proofs/ExtractScope.lean) it
     is never exhausted (`global_iff`). -/
 def globalFuel (cs : List Container) : Nat → Parent → Bool
   | 0, _ => true
@@ -218,10 +262,10 @@ def globalFuel (cs : List Container) : Nat → Parent → Bool
 def isGlobal (cs : List Container) (p : Parent) : Bool := globalFuel cs (cs.length + 1) p
 
 /-- the scope filter of `mk_component` / `build_component`: everything when no component is given -/
-def inScope (cs : List Container) (comp : Option Nat) (p : Parent) : Bool :=
+def inScope (cs : List Container) (rf : List PkgRef) (comp : Option Nat) (p : Parent) : Bool :=
   match comp with
   | none => true
-  | some c => containedIn cs c p
+  | some c => containedIn cs rf c p
 
 /-- `ModelLoader.build_component(name)`: `select_any('C_C', where(Name=name))`;
     `none` (no name) and the empty name (falsy) fall back to the whole model when no component
